@@ -441,9 +441,25 @@ class Gen:
                   ("list", (("int", 1),)), ("list", (("dec", 1.0),)), ("set", (("int", 1), ("int", 2))), ("map", ((("str", "k"), ("int", 1)),)),
                   ("str", "ERROR"), ("str", "")]
 
+    def hostile_argument(self):
+        """values whose text form cannot be produced (or is expensive / fails): an error that passes through a call
+        holding one of them must stay the error that was raised"""
+        r = self.r
+        return r.choice([
+            ("obj", [("_str_", ("fn", [("self", None, False)], S("custom"))), ("x", I(1))]),
+            ("obj", [("_str_", ("fn", [("self", None, False)], I(5)))]),
+            ("obj", [("_str_", ("fn", [("self", None, False)], ("error", S("from-_str_"))))]),
+            ("obj", [("_str_", ("fn", [("self", None, False), ("more", None, False)], S("x")))]),
+            ("obj", [("_str_", I(7))]),
+            ("list", [("obj", [("_str_", ("fn", [("self", None, False)], ("error", S("nested-_str_"))))])]),
+            ("map", [(S("k"), ("obj", [("_str_", ("fn", [("self", None, False)], NULL))]))]),
+        ])
+
     def failing_statement(self):
         r = self.r
         k = r.random()
+        if k < 0.12:
+            return CALL("thrower", self.hostile_argument(), ("lit", r.choice(self.ERR_VALUES)))
         if k < 0.45:
             return ("error", ("lit", r.choice(self.ERR_VALUES)))
         if k < 0.55:
@@ -528,7 +544,7 @@ class Gen:
     def error_program(self):
         r = self.r
         k = r.random()
-        stmts = []
+        stmts = [("deffn", "thrower", [("carried", None, False), ("v", None, False)], ("seq", [LOG("thrower", V("v")), ("error", V("v"))]))]
         if k < 0.15:
             # the value a catch clause compares with is an expression like any other: a parameter or a loop variable
             # has another value at every evaluation of the same block
